@@ -387,8 +387,26 @@ func TestC07(t *testing.T) {
 				bs = 1 + uniform(t, "bufsmall", 9)
 			}
 			buf := make([]byte, bs)
+			var slab []byte
+			if rapid.IntRange(0, 7).Draw(t, "read_into_window_of_a_slab") == 0 {
+				// the relay's buffer is a window of a larger slab (a ring buffer, a slot of an arena):
+				// cap(b) is far more than len(b), and what lies beyond len(b) is the caller's,
+				// in use for something else - io.Reader lets Read touch b[:len(b)] only
+				slab = bytes.Repeat([]byte{0x5a}, bs+17000)
+				buf = slab[:bs]
+			}
 			var n int
 			e := guard(func() error { var e error; n, e = c.Read(buf); return e })
+			if slab != nil {
+				for i := bs; i < len(slab); i++ {
+					if slab[i] != 0x5a {
+						rp["ops"] = ops
+						ev.Violation(t, "C07", rp, "Read(b) with len(b)=%d, cap(b)=%d wrote into the caller's memory %d bytes past the end of b", bs, cap(buf), i-bs)
+					}
+					slab[i] = 0xc3 // and the caller goes on using its memory
+				}
+				ops = append(ops, "slab")
+			}
 			ops = append(ops, fmt.Sprintf("r%d=%d", bs, n))
 			got = append(got, buf[:n]...)
 			for d := len(got) - n; d < len(got); d++ {
